@@ -254,7 +254,7 @@ async fn run_tcp(case: &SizeCase, obs: &mut Obs) -> Result<(), String> {
 	let method = format!("echo_{}", KINDS[case.kind as usize % 3]);
 	let Some((bytes, _echoed)) = sized_request(size, case.pad, &method) else { return Ok(()) };
 	let over = size > case.max_request as usize;
-	let ctx = std::sync::Arc::new(HCtx { log: Default::default(), gates: Gates::default(), actors: Default::default(), guard_seen: Default::default() });
+	let ctx = std::sync::Arc::new(HCtx { log: Default::default(), gates: Gates::default(), actors: Default::default(), guard_seen: Default::default(), sub_ids: Default::default() });
 	let module = build_module(ctx.clone());
 	let cfg = Cfg { max_request: case.max_request, max_response: case.max_response, ..Cfg::default() };
 	let server = jsonrpsee_server::Server::builder().set_config(server_config(&cfg, false)).build("127.0.0.1:0").await.map_err(|e| format!("INCONCLUSIVE bind: {e}"))?;
